@@ -543,8 +543,8 @@ impl TypedScenario for C02E2E {
     }
     fn budget(&self, tier: Tier) -> usize {
         match (tier, self.faulty) {
-            (Tier::Quick, false) => 4000,
-            (Tier::Quick, true) => 1500,
+            (Tier::Quick, false) => 8000,
+            (Tier::Quick, true) => 3000,
             (Tier::Thorough, false) => 400_000,
             (Tier::Thorough, true) => 100_000,
         }
@@ -656,7 +656,7 @@ impl TypedScenario for C02Rows {
     }
     fn budget(&self, tier: Tier) -> usize {
         match tier {
-            Tier::Quick => 99 + 300,
+            Tier::Quick => 99 + 1500,
             Tier::Thorough => 99 + 100_000,
         }
     }
